@@ -108,8 +108,8 @@ func registerAll() {
 	}
 	propTable["C05"] = &PropSpec{
 		ID:    "C05",
-		Rules: []string{"L5", "L6", "L9", "L13", "L14", "L17", "L7"},
-		Explanation: "for EVERY slab size t in [minSlabSize, maxSlabSize] (affine-interval abstract interpretation of setThreshold, not a sample): minThreshold is t/2, maxThreshold is 1.5t and fits the 16-bit size fields, two maximal array elements plus the slab prefix fit in t, two maximal map elements plus digests and prefixes fit in t, a maximal key plus an equal value fit the element limit, and no unsigned subtraction underflows; every element is materialised with the limit of its container kind; every mutation path runs the full / underflow decision and refreshes the index data it summarises (sizes, counts, cumulative counts, header copies). The batch builders build the next tree level only from at least two slabs and merge / rebalance the underfull last slab of a level on the correct decision edges.",
+		Rules: []string{"L5", "L6", "L9", "L13", "L14", "L17", "L7", "L16", "X7"},
+		Explanation: "for EVERY slab size t in [minSlabSize, maxSlabSize] (affine-interval abstract interpretation of setThreshold, not a sample): minThreshold is t/2, maxThreshold is 1.5t and fits the 16-bit size fields, two maximal array elements plus the slab prefix fit in t, two maximal map elements plus digests and prefixes fit in t, a maximal key plus an equal value fit the element limit, and no unsigned subtraction underflows; every element is materialised with the limit of its container kind; every mutation path runs the full / underflow decision and refreshes the index data it summarises (sizes, counts, cumulative counts, header copies). The batch builders build the next tree level only from at least two slabs and merge / rebalance the underfull last slab of a level on the correct decision edges. Cached sizes (which the parents' header tables copy) start from the encoded prefix of the object's kind and state wherever they are established or re-based; decoded element lists do not share their digest slices with other containers (an in-place edit of one would unsort another).",
 		NotDecided: "that split, lend/borrow and merge choose points that keep both sides inside the band (depends on element sizes); sortedness/uniqueness of digests and sibling links (value-level).",
 		Technique:  "affine-interval abstract interpretation (exhaustive over the symbolic slab size), value-flow checks on Storable() limits, must-pass-through path rules",
 	}
